@@ -57,6 +57,16 @@ impl Prop for C13 {
                 }
             }
         }
+        // one family in fifty is huge: 140 trivial distinct configurations (more than any small
+        // bounded cache keeps), built once each and then revisited
+        if rng.chance(1, 50) {
+            let mut configs: Vec<Config> = Vec::new();
+            for i in 0..140usize {
+                configs.push(vec![ModeSpec { name: "INITIAL".into(), patterns: vec![PatternSpec { pattern: format!("a{{{}}}b?", 1 + i % 7), token_type: i, lookahead: None }], transitions: vec![] }]);
+            }
+            mark("probe.huge_family");
+            return World { configs, inputs: vec!["aaab aab".to_string()], note: "huge family".into() };
+        }
         // one family in ten is large (more distinct entries than a small bounded cache would keep)
         let large = rng.chance(1, 10);
         if large {
@@ -111,7 +121,7 @@ impl Prop for C13 {
         gw.world
     }
     fn new_gen<'w>(&self, world: &'w World, rng: &mut Rng) -> Box<dyn Gen + 'w> {
-        let len = if world.configs.len() > 18 { rng.range(40, 60) } else { rng.range(5, 25) };
+        let len = if world.configs.len() >= 140 { rng.range(200, 300) } else if world.configs.len() > 18 { rng.range(40, 60) } else { rng.range(5, 25) };
         Box::new(Gen13 { world, len, steps: 0, built: vec![] })
     }
     fn new_exec<'w>(&self, world: &'w World) -> Box<dyn Exec + 'w> {
@@ -130,7 +140,7 @@ impl Prop for C13 {
         &[
             "probe.hit", "probe.miss", "probe.hit_after_other_config", "probe.hit_after_failure", "probe.failing_build",
             "probe.failure_with_populated_cache", "probe.repeated_failure", "probe.family_has_polarity_twins",
-            "probe.add_patterns_build", "probe.large_family", "probe.family_has_merged_pattern_lists", "probe.behaviour_comparisons", "probe.variant_distinguished_by_probe_inputs",
+            "probe.add_patterns_build", "probe.large_family", "probe.huge_family", "probe.family_has_merged_pattern_lists", "probe.behaviour_comparisons", "probe.variant_distinguished_by_probe_inputs",
             "fault.build_fail", "fault.cache_pollution",
         ]
     }
@@ -191,6 +201,21 @@ fn behaviour(sc: &Scanner, n_modes: usize, inputs: &[String]) -> Vec<Obs> {
             });
             out.push(match r {
                 Ok(v) => Obs::Toks(v),
+                Err(p) => Obs::Panic(sut::panic_class(&p)),
+            });
+            // what a parser sees through peek_n at the start and after the first token (a peek stops
+            // at a token with a transition, so transitions are observable without consuming)
+            let r = guarded(|| {
+                let mut f = sc.find_iter(inp);
+                f.set_mode(m);
+                let a = sut::peek_obs(f.peek_n(3));
+                let _ = f.next();
+                let b = sut::peek_obs(f.peek_n(2));
+                let mode = f.current_mode();
+                (a, b, mode)
+            });
+            out.push(match r {
+                Ok((a, b, mode)) => Obs::Peek(a.0, [a.1, vec![(mode, 0, 0)], b.1].concat()),
                 Err(p) => Obs::Panic(sut::panic_class(&p)),
             });
         }
@@ -279,13 +304,13 @@ impl<'w> Exec for Exec13<'w> {
                     // does the probe set distinguish this configuration from the previous one built?
                     if ba != bb {
                         let i = ba.iter().zip(bb.iter()).position(|(x, y)| x != y).unwrap_or(0);
-                        let ni = self.world.inputs.len();
+                        let ni = self.world.inputs.len() * 2;
                         StepOut::fail(
                             obs,
                             viol(
                                 "C13/behaviour/tokens".into(),
                                 idx,
-                                format!("uncached, start mode {} input {}: {:?}", i / ni, i % ni, bb[i]),
+                                format!("uncached, start mode {} input {} ({}): {:?}", i / ni, (i % ni) / 2, if i % 2 == 0 { "scan" } else { "peeks" }, bb[i]),
                                 format!("cached: {:?}", ba[i]),
                             ),
                         )
